@@ -38,13 +38,13 @@ def cfg(tier, engine):
     deep = tier != "quick"
     if engine == "sql":
         return Cfg(
-            engines=(0,), max_ops=14 if deep else 8, max_leaves=4 if deep else 3, p_binary=0.3, markers=("mat",), avoid=AVOID
+            engines=(0,), max_ops=14 if deep else 8, max_leaves=4 if deep else 3, p_binary=0.3, markers=("mat",), avoid=AVOID, prelude=0.4
         )
     return Cfg(engines=(1, 2), binary=("chain",), markers=("mat", "xfer"), max_ops=14 if deep else 8, p_binary=0.15)
 
 
 def budget(tier):
-    return 3000 if tier == "quick" else 150000
+    return 6000 if tier == "quick" else 200000
 
 
 def strategy(tier):
@@ -135,6 +135,28 @@ def run_case(case, stats):
 
 def describe(case):
     return describe_case(*case[1], engine=case[0])
+
+
+EXHAUSTIVE_NOTE = "SELECT-rule matrix of vf/core/matrix.py (one further operation on all bases; two further operations on the leaf base; thorough: all bases)"
+
+
+def exhaustive(tier, stats, shard, nshards, run):
+    from vf.core.matrix import select_matrix
+
+    plans = [(1, ("leaf", "sel", "chain", "join")), (2, ("leaf",) if tier == "quick" else ("leaf", "sel", "chain", "join"))]
+    idx = 0
+    for steps, bases in plans:
+        for label, case in select_matrix(steps, 0, bases):
+            idx += 1
+            if idx % nshards != shard:
+                continue
+            case = ("sql", case)
+            try:
+                run(case)
+            except Violation as v:
+                v.case = case
+                raise
+            stats.c["matrix_cases"] += 1
 
 
 def attribute(case, v):
